@@ -160,7 +160,9 @@ def shard_include(shard):
         for main, files, path in buf:
             pre = ['mkdir ' + enc(b'sp')] + ['mkfile %s %s' % (enc(n), enc(c)) for n, c in files.items()]
             lines = pre + ['init A %s %d' % (sid, flags), 'cb_quiet 1']
-            if path:
+            if path == 'file-first':
+                lines.append('parse A ' + enc(b'one.conf'))       # the same context is parsed from a named file first
+            elif path:
                 lines.append('addpath A ' + enc(root.encode() + b'/sp'))
             lines += ['parse_buf A ' + enc(main), 'print A', 'free A']
             cases.append(Case(lines))
@@ -180,6 +182,9 @@ def shard_include(shard):
             buf.append((b'sec { include("a.conf") }', {b'a.conf': T}, False))
             buf.append((b'include("a.conf")', {b'sp/a.conf': T}, True))
             buf.append((b'include("a.conf") ' + T, {b'a.conf': b'm { include("b.conf") }', b'b.conf': b'x = 2'}, False))
+            # sections entered from one source and re-entered from another (their file name string changes hands)
+            buf.append((b'sec { x = 2 } include("a.conf") sec { x = 3 }', {b'a.conf': T}, False))
+            buf.append((T, {b'one.conf': b'sec { x = 2 } m { } s = v\n'}, 'file-first'))
             if len(buf) >= BATCH:
                 flush()
                 if time.time() > deadline:
